@@ -6,8 +6,10 @@ import (
 	"fmt"
 	"reflect"
 	"strconv"
+	"strings"
 	"sync/atomic"
 
+	"cvssmc/internal/dump"
 	"cvssmc/internal/ev"
 	"cvssmc/internal/lang"
 	"cvssmc/internal/lib"
@@ -349,6 +351,69 @@ func optionLists(r *ev.Run, n *int64) {
 						lastWins = desc
 					}
 				}
+			}
+		}
+	}
+	// option slices owned by the caller, with spare capacity and a shared backing array: a library
+	// that appends to the slice it was given writes into the caller's array (round 5, C17-A-r5)
+	for _, bg := range bgs {
+		s := canonicalWritten(3, 2, bg.ver, bg.tok)
+		em, err := v3.NewEnvironmental().Decode(s)
+		if err != nil {
+			continue
+		}
+		for level := 2; level >= 0; level-- {
+			build := func(opts []report.ReportOptionsFunc) string {
+				switch level {
+				case 2:
+					return dump.Of(report.NewEnvironmental(em, opts...))
+				case 1:
+					return dump.Of(report.NewTemporal(em.TemporalMetrics(), opts...))
+				}
+				return dump.Of(report.NewBase(em.BaseMetrics(), opts...))
+			}
+			common := make([]report.ReportOptionsFunc, 0, 4)
+			jaList := append(common, report.WithOptionsLanguage(language.Japanese))
+			first := build(jaList)
+			build(common)
+			enja := append(jaList[:1:4], report.WithOptionsLanguage(language.English)) // shares the array; [ja, en]
+			build(enja[:1])
+			third := build(jaList)
+			*n += 4
+			fresh := build([]report.ReportOptionsFunc{report.WithOptionsLanguage(language.Japanese)})
+			cs := map[string]any{"vector": s, "report": "New" + map[int]string{0: "Base", 1: "Temporal", 2: "Environmental"}[level],
+				"history": []string{"common := make([]ReportOptionsFunc, 0, 4); ja := append(common, WithOptionsLanguage(Japanese))", "New(m, ja...)", "New(m, common...)", "New(m, ja[:1]...) again through a sibling slice", "New(m, ja...)"}}
+			if first != fresh {
+				r.Violate(ev.Violation{Kind: "report-depends-on-option-slice-capacity", Case: cs, Observed: first, Expected: fresh + "  (the same options passed as a literal)"})
+			} else if third != first {
+				r.Violate(ev.Violation{Kind: "report-changes-callers-option-slice", Case: cs, Observed: third, Expected: first + "  (the first report built from the same slice)"})
+			}
+		}
+	}
+	// many languages in one process, Japanese first, every tag asked twice in a row and once more
+	// at the end: English for every tag that is neither en nor ja, whatever was asked before
+	// (round 5, C18-A-r5: a 16-slot table of per-language titles recycled with a stale pairing)
+	{
+		bg := bgs[0]
+		s := canonicalWritten(3, 2, bg.ver, bg.tok)
+		if em, err := v3.NewEnvironmental().Decode(s); err == nil {
+			tags := []language.Tag{language.Japanese}
+			for _, c := range strings.Fields("fr de es it pt nl sv da fi nb pl cs sk hu ro bg el tr ru uk he ar fa hi bn ta th vi id ms ko zh zh-Hant yue ka hy az kk uz mn und") {
+				tags = append(tags, language.MustParse(c))
+			}
+			tags = append(tags, language.English, language.Japanese)
+			check := func(t language.Tag, when string) {
+				rep := report.NewEnvironmental(em, report.WithOptionsLanguage(t))
+				*n++
+				lc := langCase{t.String(), nil, t, true}
+				checkFullReport(r, map[string]any{"vector": s, "language": t.String(), "report": "NewEnvironmental", "sequence": when}, rep, bg.ver, bg.tok, lc)
+			}
+			for i, t := range tags {
+				check(t, fmt.Sprintf("language %d of %d distinct ones asked in this order, Japanese first", i+1, len(tags)))
+				check(t, fmt.Sprintf("language %d of %d, asked a second time", i+1, len(tags)))
+			}
+			for i := len(tags) - 1; i >= 0; i-- {
+				check(tags[i], "asked again after all the others, in reverse order")
 			}
 		}
 	}
